@@ -37,10 +37,10 @@ def _evaluated_elsewhere(gi, proto):
     if (gi, proto) not in _ELSEWHERE:
         verif = os.path.dirname(os.path.dirname(os.path.abspath(__file__)))
         G = defs.GRAPHS[gi]
-        G.register(777, Value("registered-at-run-time"))
+        G.register("run-time-alias", Value("registered-at-run-time"))
         blob = pickle.dumps(G, proto)
         code = ("import sys, pickle; sys.path[:0] = %r; blob = sys.stdin.buffer.read(); C = pickle.loads(blob); "
-                "print(repr(C({'D': 777, 'A': 1, 'X': 2})))" % ([p for p in sys.path if p],))
+                "print(repr(C({'D': 'run-time-alias', 'A': 1, 'X': 2})))" % ([p for p in sys.path if p],))
         p = subprocess.run([sys.executable, "-c", code], input=blob, capture_output=True, cwd=verif,
                            env={"PATH": "/usr/bin:/bin", "HOME": "/tmp"})
         _ELSEWHERE[(gi, proto)] = p.stdout.decode().strip() if p.returncode == 0 else "subprocess failed: " + p.stderr.decode()[-300:]
@@ -105,7 +105,7 @@ def roundtrip(gi: int, pw: list, a: int, pa: bool, b: int, pb: bool, d: int, pd:
     if gi == 1 and where == 0:
         # memoized values travel with the pickle: what the original has stored, the copy returns too
         _WARM[0] += 1
-        alias = 1000 + _WARM[0]
+        alias = "warm-%d" % _WARM[0]          # a string: can never equal the symbolic int dispatch value of another path
         ow = dict(o)
         ow["D"] = alias
         with quiet():
